@@ -2088,73 +2088,88 @@ def c17_factor(inp):
 
 
 def c17_fd(inp):
-    """single perturbation direction: reported frequency variance vs squared central finite difference of the identification"""
+    """reported frequency variance at EVERY model order vs the sum over the factor's columns of squared central finite differences of
+    the identification itself (column-stacked factor; guards as in the property: two step sizes agree, simple singular values and
+    eigenvalues)"""
     from pyoma2.functions import ssi
     rng = np.random.RandomState(int(inp.get("seed", 18)))
     worst = None
-    n_cases = 0
+    n_cases = n_cmp = 0
     for trial in range(int(inp.get("trials", 6))):
-        l = int(rng.randint(1, 4)); r = l; br = int(rng.randint(3, 6)); m = int(rng.randint(1, 3))
-        fs = 20.0; dt = 1 / fs
-        f = np.sort(rng.uniform(1.0, 8.0, m))
-        if m > 1 and np.min(np.diff(f)) < 1.0:
-            continue
-        xi = rng.uniform(0.01, 0.05, m)
-        lam = -xi * 2 * np.pi * f + 1j * 2 * np.pi * f * np.sqrt(1 - xi ** 2)
-        mu = np.exp(np.concatenate([lam, lam.conj()]) * dt)
-        phi = rng.randn(l, m)
-        V = np.concatenate([phi, phi], axis=1).astype(complex)
-        Obs_t = np.vstack([V * mu ** i for i in range(br + 1)])
-        g = rng.randn(m) + 1j * rng.randn(m)
-        G = np.concatenate([g, g.conj()])
-        Ctr = np.vstack([(mu ** j) * G for j in range((br + 1) * r)]).T
-        H0 = np.real(Obs_t @ Ctr) + 1e-3 * rng.randn((br + 1) * l, (br + 1) * r)
-        ordmax = 2 * m
-        D = rng.randn(*H0.shape)
-
-        def poles(H):
-            Obs, A, C, *_ = ssi.SSI_fast(H, br, ordmax, step=1)
-            Fn, Xi, Phi, Lam, *_ = ssi.SSI_poles(Obs, A, C, ordmax, dt, step=1)
-            return Fn, Lam
         try:
+            l = int(rng.randint(1, 4)); r = int(rng.randint(1, l + 1)); br = int(rng.randint(2, 6)); m = int(rng.randint(1, 3))
+            fs = 20.0; dt = 1 / fs
+            f = np.sort(rng.uniform(1.0, 8.0, m))
+            if m > 1 and np.min(np.diff(f)) < 1.0:
+                continue
+            xi = rng.uniform(0.01, 0.05, m)
+            lam = -xi * 2 * np.pi * f + 1j * 2 * np.pi * f * np.sqrt(1 - xi ** 2)
+            mu = np.exp(np.concatenate([lam, lam.conj()]) * dt)
+            phi = rng.randn(l, m)
+            V = np.concatenate([phi, phi], axis=1).astype(complex)
+            Obs_t = np.vstack([V * mu ** i for i in range(br + 1)])
+            g = rng.randn(m) + 1j * rng.randn(m)
+            G = np.concatenate([g, g.conj()])
+            Ctr = np.vstack([(mu ** j) * G for j in range((br + 1) * r)]).T
+            shape = ((br + 1) * l, (br + 1) * r)
+            H0 = np.real(Obs_t @ Ctr) + 1e-2 * np.abs(np.real(Obs_t @ Ctr)).max() * rng.randn(*shape)
+            ordmax = min(2 * m + int(rng.randint(0, 3)), min(shape) - 1, 8)
+            if ordmax < 2:
+                continue
+            sv = np.linalg.svd(H0, compute_uv=False)[:ordmax + 1]
+            if np.min(np.abs(np.diff(sv)) / sv[:-1]) < 1e-3:
+                continue
+            ncol = int(rng.randint(1, 4))
+            Ds = [rng.randn(*shape) for _ in range(ncol)]
+
+            def poles(H):
+                Obs, A, C, *_ = ssi.SSI_fast(H, br, ordmax, step=1)
+                Fn, Xi, Phi, Lam, *_ = ssi.SSI_poles(Obs, A, C, ordmax, dt, step=1)
+                return Fn, Lam
             Fn0, Lam0 = poles(H0)
-            fd = []
+            fd = {}
             for eps in (1e-6, 1e-7):
-                Fp, Lp = poles(H0 + eps * D)
-                Fm, Lm = poles(H0 - eps * D)
-                d = []
-                for j in range(ordmax):
-                    jp = np.nanargmin(np.abs(Lp[:, ordmax] - Lam0[j, ordmax]))
-                    jm = np.nanargmin(np.abs(Lm[:, ordmax] - Lam0[j, ordmax]))
-                    d.append((Fp[jp, ordmax] - Fm[jm, ordmax]) / (2 * eps))
-                fd.append(np.array(d) ** 2)
+                acc = np.zeros((ordmax, ordmax + 1))
+                for D in Ds:
+                    Fp, Lp = poles(H0 + eps * D)
+                    Fm, Lm = poles(H0 - eps * D)
+                    for n in range(2, ordmax + 1):
+                        for j in range(n):
+                            if np.isnan(Lam0[j, n]):
+                                acc[j, n] = np.nan
+                                continue
+                            jp = np.nanargmin(np.abs(Lp[:, n] - Lam0[j, n]))
+                            jm = np.nanargmin(np.abs(Lm[:, n] - Lam0[j, n]))
+                            acc[j, n] += ((Fp[jp, n] - Fm[jm, n]) / (2 * eps)) ** 2
+                fd[eps] = acc
+            T = np.hstack([D.reshape(-1, 1, order="F") for D in Ds])        # column-stacked, as the property states
+            Obs, A, C, Q1, Q2, Q3, Q4 = ssi.SSI_fast(H0, br, ordmax, step=1, calc_unc=True, T=T, nb=ncol)
+            out = ssi.SSI_poles(Obs, A, C, ordmax, dt, step=1, calc_unc=True, Q1=Q1, Q2=Q2, Q3=Q3, Q4=Q4)
         except Exception:      # noqa: BLE001  (ill-conditioned synthetic case: not a guarded case)
             continue
-        if not np.allclose(fd[0], fd[1], rtol=1e-3, atol=1e-12):
-            continue            # derivative not trustworthy at these step sizes: guarded case
         n_cases += 1
-        best = None
-        for name, vec in (("column-stacked", lambda M: M.reshape(-1, 1, order="F")), ("row-stacked", lambda M: M.reshape(-1, 1))):
-            T = vec(D)
-            try:
-                Obs, A, C, Q1, Q2, Q3, Q4 = ssi.SSI_fast(H0, br, ordmax, step=1, calc_unc=True, T=T, nb=1)
-                out = ssi.SSI_poles(Obs, A, C, ordmax, dt, step=1, calc_unc=True, Q1=Q1, Q2=Q2, Q3=Q3, Q4=Q4)
-            except Exception:      # noqa: BLE001
-                continue
-            rep = out[4][:ordmax, ordmax]
-            rel = np.max(np.abs(rep - fd[0]) / np.maximum(np.abs(fd[0]), 1e-300))
-            if best is None or rel < best[1]:
-                best = (name, rel, rep)
-        if best is None:
-            continue
-        if best[1] > 1e-3 and (worst is None or best[1] > worst[1]):
-            worst = (f"l={l}, br={br}, order {ordmax}, trial {trial}", best[1], best[0], best[2], fd[0])
+        Fcov = out[4]
+        for n in range(2, ordmax + 1):
+            lamn = Lam0[:n, n]
+            for j in range(n):
+                a, b_ = fd[1e-6][j, n], fd[1e-7][j, n]
+                if not np.isfinite(a) or not np.isfinite(b_) or not np.isclose(a, b_, rtol=1e-3, atol=1e-14):
+                    continue        # derivative not trustworthy at these step sizes: guarded
+                others = np.delete(lamn, j)
+                if others.size and np.nanmin(np.abs(others - lamn[j])) < 0.05:
+                    continue        # eigenvalues not simple enough: guarded
+                n_cmp += 1
+                rel = abs(Fcov[j, n] - a) / max(abs(a), 1e-300)
+                if rel > 1e-3 and (worst is None or rel > worst[1]):
+                    worst = (f"l={l}, r={r}, br={br}, ordmax={ordmax}, order {n}, pole {j}, {ncol} factor column(s), trial {trial}", rel, Fcov[j, n], a)
     if worst:
         return {"reproduced": True, "failures": [{"claim": "frequency variance = squared directional derivative (single direction)",
-                "detail": f"reported Fn variance {np.round(worst[3], 8).tolist()} vs squared central finite difference {np.round(worst[4], 8).tolist()} "
-                          f"(relative error {worst[1]:.2e} with the better of both vectorisations: {worst[2]}; {worst[0]}; {n_cases} guarded cases)"}],
+                "detail": f"reported Fn variance {worst[2]:.6e} vs sum of squared central finite differences {worst[3]:.6e} "
+                          f"(relative error {worst[1]:.2e}; {worst[0]}; {n_cmp} variances compared on {n_cases} guarded cases)"}],
                 "detail": f"first-order propagation disagrees with finite differences: relative error {worst[1]:.2e} ({worst[0]})"}
-    return {"reproduced": False, "detail": f"reported variances equal squared directional derivatives on {n_cases} guarded cases"}
+    if n_cmp == 0:
+        raise RuntimeError("c17_fd compared nothing (every case was guarded)")
+    return {"reproduced": False, "detail": f"reported variances equal the sum of squared directional derivatives at every order: {n_cmp} variances on {n_cases} guarded cases"}
 
 
 
@@ -2478,7 +2493,7 @@ def flow_spectral(inp):
     y = rng.randn(600, 3)
     for trial in range(12):
         nxseg = int(rng.choice([64, 128, 100]))
-        pov = float(rng.choice([0.25, 0.5, 0.75]))
+        pov = float(rng.choice([0.0, 0.25, 0.5, 0.75]))
         meth = str(rng.choice(["per", "cor"]))
         fs = float(rng.choice([10.0, 50.0]))
         for mod, clsname, multi in ((afdd, "FDD", False), (aplscf, "pLSCF", False), (afdd, "FDD_MS", True), (afdd, "EFDD_MS", True), (aplscf, "pLSCF_MS", True)):
@@ -2551,6 +2566,7 @@ def flow_mpe(inp):
         setattr(k_mod, fn_name, spy)
         try:
             alg = getattr(mod, clsname)(name="a", br=3, ordmax=6) if clsname == "SSIcov" else (getattr(mod, clsname)(name="a", ordmax=6) if clsname == "pLSCF" else getattr(mod, clsname)(name="a", nxseg=64))
+            alg._set_data(data=np.zeros((640, 2)), fs=64.0)        # what add_algorithms binds: data, fs, dt
             fields = sorted(set(ins.values()))
             vals = dict(zip(fields, tagged(len(fields))))
             alg.result = res_cls(**{f: v for f, v in vals.items() if f in res_cls.model_fields})
@@ -2577,7 +2593,138 @@ def flow_mpe(inp):
     return {"reproduced": False, "detail": "mpe of FDD, SSIcov, pLSCF hand the stored tables and the caller's arguments to the extraction routine and store every returned value under its own name"}
 
 
-DRIVERS = {"flow_spectral": flow_spectral, "flow_mpe": flow_mpe, "c16_handover": c16_handover, "c02_results": c02_results, "c08_meta": c08_meta, "c17_factor": c17_factor, "c17_fd": c17_fd, "c03_exact": c03_exact, "c05_exact": c05_exact, "c01_exact": c01_exact, "c01_modal": c01_modal, "c19_geo": c19_geo, "c15_gating": c15_gating, "c15_poser": c15_poser, "c11_plscf_findmin": c11_plscf_findmin, "c11_mpe": c11_mpe, "c06_fdd": c06_fdd, "c20_plots": c20_plots, "c18_indicators": c18_indicators, "c13_sdest": c13_sdest, "c04_preger": c04_preger, "c03_split": c03_split, "c14_sequences": c14_sequences, "c16_dialog": c16_dialog, "c02_merge": c02_merge, "c09_run": c09_run, "c10_run": c10_run, "c10_fn": c10_fn}
+def _spy_all(mod, names):
+    """replace mod.<name> by recorders that call the real function; returns (seen, restore)"""
+    import inspect
+    seen, real = {}, {n: getattr(mod, n) for n in names}
+
+    def mk(n):
+        def spy(*a, **k):
+            ba = inspect.signature(real[n]).bind(*a, **k)
+            ba.apply_defaults()
+            out = real[n](*a, **k)
+            seen[n] = (dict(ba.arguments), out)
+            return out
+        return spy
+    for n in names:
+        setattr(mod, n, mk(n))
+
+    def restore():
+        for n in names:
+            setattr(mod, n, real[n])
+    return seen, restore
+
+
+def flow_ssi(inp):
+    """SSIdat / SSIcov (.run) -> build_hank, SSI_fast, SSI_poles and SSIdat_MS / SSIcov_MS (.run) -> SSI_multi_setup, SSI_poles: data
+    orientation, the reference rows in the LISTED order, block rows, method, orders, dt; the kernels' outputs stored under their names"""
+    import pyoma2.algorithms.ssi as assi
+    from pyoma2.setup import MultiSetup_PreGER, SingleSetup
+    rng = np.random.RandomState(int(inp.get("seed", 12)))
+    y = rng.randn(400, 4)
+    hc = dict(conj=False, xi_max=1.0, mpc_lim=0.0, mpd_lim=10.0, cov_max=1e9)
+    for clsname, meth in (("SSIdat", None), ("SSIcov", None), ("SSIcov", "cov_R"), ("SSIcov", "cov_mm")):
+        for refs in (None, [2, 0], [1, 0, 2], [3, 1], [0, 1], [3]):
+            br, ordmax, fs = int(rng.randint(3, 6)), int(rng.randint(3, 7)), float(rng.choice([10.0, 64.0]))
+            ordmax = min(ordmax, (br + 1) * (4 if refs is None else len(refs)) - 1)      # no more orders than the Hankel matrix has columns
+            seen, restore = _spy_all(assi.ssi, ("build_hank", "SSI_fast", "SSI_poles"))
+            try:
+                kw = dict(name="a", br=br, ordmax=ordmax, ref_ind=refs, hc=hc)
+                if meth:
+                    kw["method"] = meth
+                alg = getattr(assi, clsname)(**kw)
+                st = SingleSetup(y.copy(), fs)
+                st.add_algorithms(alg)
+                st.run_by_name("a")
+            except Exception as e:      # noqa: BLE001
+                return {"reproduced": True, "detail": f"{clsname}(ref_ind={refs}, method={meth}).run raised {type(e).__name__}: {e}"}
+            finally:
+                restore()
+            ctx = f"{clsname}.run(br={br}, ordmax={ordmax}, ref_ind={refs}, method={meth}, fs={fs})"
+            if set(seen) != {"build_hank", "SSI_fast", "SSI_poles"}:
+                return {"reproduced": True, "detail": f"{ctx}: kernels called: {sorted(seen)}"}
+            g, (H, T) = seen["build_hank"]
+            want_ref = y.T if refs is None else y.T[refs, :]
+            if not np.array_equal(g["Y"], y.T):
+                return {"reproduced": True, "detail": f"{ctx}: build_hank did not receive data.T as Y"}
+            if np.shape(g["Yref"]) != want_ref.shape or not np.array_equal(g["Yref"], want_ref):
+                return {"reproduced": True, "detail": f"{ctx}: build_hank's Yref (shape {np.shape(g['Yref'])}) is not the listed reference channels in the listed order"}
+            want_m = meth or ("dat" if clsname == "SSIdat" else "cov_mm")
+            if int(g["br"]) != br or g["method"] != want_m:
+                return {"reproduced": True, "detail": f"{ctx}: build_hank received br={g['br']}, method={g['method']}"}
+            f, fout = seen["SSI_fast"]
+            if f["H"] is not H or int(f["br"]) != br or int(f["ordmax"]) != ordmax:
+                return {"reproduced": True, "detail": f"{ctx}: SSI_fast did not receive build_hank's matrix / br / ordmax"}
+            p_, _ = seen["SSI_poles"]
+            if p_["Obs"] is not fout[0] or p_["AA"] is not fout[1] or p_["CC"] is not fout[2] or abs(float(p_["dt"]) - 1 / fs) > 1e-15 or int(p_["ordmax"]) != ordmax:
+                return {"reproduced": True, "detail": f"{ctx}: SSI_poles did not receive SSI_fast's Obs, A, C with dt = 1/fs and ordmax"}
+            R = alg.result
+            if R.H is not H and not np.array_equal(R.H, H):
+                return {"reproduced": True, "detail": f"{ctx}: result.H is not build_hank's matrix"}
+    for clsname, meth in (("SSIdat_MS", None), ("SSIcov_MS", None), ("SSIcov_MS", "cov_R")):
+        br, ordmax, fs = 4, 5, 20.0
+        seen, restore = _spy_all(assi.ssi, ("SSI_multi_setup", "SSI_poles"))
+        try:
+            kw = dict(name="a", br=br, ordmax=ordmax, hc=hc)
+            if meth:
+                kw["method"] = meth
+            alg = getattr(assi, clsname)(**kw)
+            ms = MultiSetup_PreGER(fs=fs, ref_ind=[[1, 0], [0, 2]], datasets=[y[:200, :3].copy(), y[200:, :].copy()])
+            ms.add_algorithms(alg)
+            ms.run_by_name("a")
+        except Exception as e:      # noqa: BLE001
+            return {"reproduced": True, "detail": f"{clsname}(method={meth}).run raised {type(e).__name__}: {e}"}
+        finally:
+            restore()
+        g, out = seen.get("SSI_multi_setup", ({}, None))
+        want_m = meth or ("dat" if clsname == "SSIdat_MS" else "cov_mm")
+        if not g or g["Y"] is not alg.data or abs(float(g["fs"]) - fs) > 1e-12 or int(g["br"]) != br or int(g["ordmax"]) != ordmax or g["method_hank"] != want_m:
+            return {"reproduced": True, "detail": f"{clsname}.run(method={meth}): SSI_multi_setup did not receive the algorithm's datasets, fs, br, ordmax and Hankel method"}
+        p_, _ = seen.get("SSI_poles", ({}, None))
+        if not p_ or p_["Obs"] is not out[0] or p_["AA"] is not out[1] or p_["CC"] is not out[2] or abs(float(p_["dt"]) - 1 / fs) > 1e-15:
+            return {"reproduced": True, "detail": f"{clsname}.run(method={meth}): SSI_poles did not receive SSI_multi_setup's Obs, A, C with dt = 1/fs"}
+    return {"reproduced": False, "detail": "run() of SSIdat, SSIcov (cov_mm, cov_R), SSIdat_MS, SSIcov_MS hands data.T, the listed reference rows, br, method, ordmax, dt to the kernels and chains their outputs (6 reference selections)"}
+
+
+def flow_plscf(inp):
+    """pLSCF / pLSCF_MS (.run) -> plscf.pLSCF, pLSCF_poles: the estimator's spectrum, dt, ordmax, the basis-function sign that belongs to the estimator"""
+    import pyoma2.algorithms.plscf as aplscf
+    from pyoma2.setup import MultiSetup_PreGER, SingleSetup
+    rng = np.random.RandomState(int(inp.get("seed", 5)))
+    y = rng.randn(900, 3)
+    hc = dict(conj=False, xi_max=1.0, mpc_lim=0.0, mpd_lim=10.0, cov_max=1e9)
+    for clsname, multi in (("pLSCF", False), ("pLSCF_MS", True)):
+        for meth in ("per", "cor"):
+            nxseg, ordmax, fs = int(rng.choice([64, 128])), int(rng.randint(2, 5)), float(rng.choice([10.0, 50.0]))
+            seen, restore = _spy_all(aplscf.plscf, ("pLSCF", "pLSCF_poles"))
+            seen2, restore2 = _spy_all(aplscf.fdd, ("SD_PreGER",) if multi else ("SD_est",))
+            try:
+                alg = getattr(aplscf, clsname)(name="a", ordmax=ordmax, nxseg=nxseg, method_SD=meth, hc=hc)
+                st = MultiSetup_PreGER(fs=fs, ref_ind=[[0], [0]], datasets=[y[:450].copy(), y[450:].copy()]) if multi else SingleSetup(y.copy(), fs)
+                st.add_algorithms(alg)
+                st.run_by_name("a")
+            except Exception as e:      # noqa: BLE001
+                return {"reproduced": True, "detail": f"{clsname}(method_SD={meth}).run raised {type(e).__name__}: {e}"}
+            finally:
+                restore()
+                restore2()
+            ctx = f"{clsname}.run(method_SD={meth}, nxseg={nxseg}, ordmax={ordmax}, fs={fs})"
+            if set(seen) != {"pLSCF", "pLSCF_poles"} or not seen2:
+                return {"reproduced": True, "detail": f"{ctx}: kernels called: {sorted(seen)} / {sorted(seen2)}"}
+            Sy = list(seen2.values())[0][1][1]
+            g, out = seen["pLSCF"]
+            want = -1 if meth == "per" else 1
+            if g["Sy"] is not Sy or abs(float(g["dt"]) - 1 / fs) > 1e-15 or int(g["ordmax"]) != ordmax:
+                return {"reproduced": True, "detail": f"{ctx}: plscf.pLSCF did not receive the estimator's spectrum, dt = 1/fs and ordmax"}
+            if float(g["sgn_basf"]) != want:
+                return {"reproduced": True, "detail": f"{ctx}: plscf.pLSCF received sgn_basf={g['sgn_basf']}, the estimator '{meth}' needs {want}"}
+            p_, _ = seen["pLSCF_poles"]
+            if p_["Ad"] is not out[0] or p_["Bn"] is not out[1] or abs(float(p_["dt"]) - 1 / fs) > 1e-15 or p_["methodSy"] != meth or int(p_["nxseg"]) != nxseg:
+                return {"reproduced": True, "detail": f"{ctx}: pLSCF_poles did not receive the fitted model with dt, the estimator's name and nxseg"}
+    return {"reproduced": False, "detail": "run() of pLSCF and pLSCF_MS hands the estimator's spectrum, dt, ordmax and the sign belonging to the estimator to plscf.pLSCF and the fitted model to pLSCF_poles"}
+
+
+DRIVERS = {"flow_spectral": flow_spectral, "flow_ssi": flow_ssi, "flow_plscf": flow_plscf, "flow_mpe": flow_mpe, "c16_handover": c16_handover, "c02_results": c02_results, "c08_meta": c08_meta, "c17_factor": c17_factor, "c17_fd": c17_fd, "c03_exact": c03_exact, "c05_exact": c05_exact, "c01_exact": c01_exact, "c01_modal": c01_modal, "c19_geo": c19_geo, "c15_gating": c15_gating, "c15_poser": c15_poser, "c11_plscf_findmin": c11_plscf_findmin, "c11_mpe": c11_mpe, "c06_fdd": c06_fdd, "c20_plots": c20_plots, "c18_indicators": c18_indicators, "c13_sdest": c13_sdest, "c04_preger": c04_preger, "c03_split": c03_split, "c14_sequences": c14_sequences, "c16_dialog": c16_dialog, "c02_merge": c02_merge, "c09_run": c09_run, "c10_run": c10_run, "c10_fn": c10_fn}
 
 
 def main():
